@@ -23,3 +23,25 @@ Theorem C14_parity_by_model : forall c s ops o1 o2,
   fst (corr_steps c s ops o1) = true -> fst (corr_steps c s ops o2) = true -> all_eqb o1 o2 = true.
 Proof. exact corr_steps_parity. Qed.
 Print Assumptions C14_parity_by_model.
+
+(* ---- the pub/sub pair with application handlers (PubSubManager / AsyncPubSubManager under Server /
+   AsyncServer whose connect / event / disconnect handlers call the room API): Check/C07HCheck.v hpair_eval ---- *)
+From VT Require Import Check.C07HCheck Check.C07HCheckProofs.
+
+(* bit 1 clear means: the observation of that member IS the run of Cluster/Handlers.v on the history *)
+Theorem C14_pubsub_corr_meaning : forall wos imm ap ops obs finals,
+  hcorr_on wos imm ap ops obs finals = true -> (obs, finals) = model_run wos imm ap ops.
+Proof. exact hcorr_on_meaning. Qed.
+Print Assumptions C14_pubsub_corr_meaning.
+
+(* bit 2 decides exactly: same effects (published messages, packets per client, handler invocations, API
+   results) at every operation and same final tables on every host *)
+Theorem C14_pubsub_same_meaning : forall p,
+  hpair_same p = true <-> hp_obs_s p = hp_obs_a p /\ hp_fin_s p = hp_fin_a p.
+Proof. exact hpair_same_meaning. Qed.
+Print Assumptions C14_pubsub_same_meaning.
+
+(* parity through the model: two members that both correspond to the model on one history behave alike *)
+Theorem C14_pubsub_parity_by_model : forall p, hpair_corr p = true -> hpair_same p = true.
+Proof. exact hpair_parity_by_model. Qed.
+Print Assumptions C14_pubsub_parity_by_model.
